@@ -290,6 +290,41 @@ func c19CmdPhase(a *artefacts, tier string, seed uint64, rep *reporter) map[stri
 		}
 		if v.Class != "" {
 			founds = append(founds, &found{&fc, v})
+			return
+		}
+		if wr.Res.ExitHow == "signal" {
+			// crash and restart: the process was killed while it wrote; only what is on the disk survives.
+			// The same command run again by a fresh process, with no fault, must succeed and leave the
+			// complete tree, whatever the killed run left behind (cut files, temporary files, lock files).
+			rc := *c
+			rc.Files = map[string][]byte{}
+			for k, b := range c.Files {
+				rc.Files[k] = b
+			}
+			debris := 0
+			for k, b := range wr.Res.Disk {
+				if _, isInput := c.Files[k]; !isInput {
+					rc.Files[k] = b
+					debris++
+				}
+			}
+			rc.Seed = simrt.Mix(c.Seed, 0xdeb1)
+			mu.Unlock()
+			rw := runWorld(a, rc.spec())
+			mu.Lock()
+			runs++
+			if rw.Res == nil {
+				return
+			}
+			stats["cmd.restart-after-kill"]++
+			if debris > 0 {
+				stats["cmd.restart-after-kill.with-files-left-behind"]++
+			}
+			if rv, _ := c19CmdJudge(&rc, rw); rv.Class != "" {
+				rv.Msg = "after an earlier run of the same command was killed by a signal while writing (" + fmt.Sprint(debris) + " file(s) left behind): " + rv.Msg
+				rv.Sig += ":restart-after-kill"
+				founds = append(founds, &found{&rc, rv})
+			}
 		}
 	})
 	seen := map[string]bool{}
